@@ -25,7 +25,7 @@ RULE = ("exhaustive: every ordered pair of the 16 binary operators (+ - * / % ==
         "distinct by tree/tuple")
 ASSUMPTIONS = [
     "% on negative operands is checked only by the law (sign convention not fixed by the statement)",
-    "mixed-kind ordering (text fallback) is not asserted",
+    "which way values of different kinds compare is not asserted",
     "membership is combined unparenthesised only with comparison/not/and/or: the statement's precedence list does "
     "not place it and the parser binds it tighter than arithmetic",
     "set and date arithmetic belong to C12/C17/C19, not to this differential",
